@@ -41,6 +41,8 @@ def cint(x):
         return ["other", repr(x)]
     if isinstance(x, (int, np.integer)):
         return int(x)
+    if isinstance(x, (float, np.floating)) and float(x).is_integer():
+        return int(x)      # the type of an index is free, its value is not
     return ["other", repr(x)]
 
 
@@ -347,10 +349,19 @@ def load_form(M, path, form):
 
 
 def same_obs(a, b):
+    """a: observed later, b: observed before.  Same geometry, and every attribute seen before is still there with the same values;
+    attributes that appear in between (caches of a save / a query) are left free."""
     a, b = dict(a), dict(b)
     a.pop("adj", None)
     b.pop("adj", None)
-    return a == b
+    aa, ab = a.pop("attrs", None) or {}, b.pop("attrs", None) or {}
+    if a != b:
+        return False
+    for ck, lst in ab.items():
+        later = {x[0]: x for x in aa.get(ck, [])}
+        if any(later.get(x[0]) != x for x in lst):
+            return False
+    return True
 
 
 def warm(m):
@@ -369,6 +380,11 @@ def warm(m):
             getattr(m, name, None)
         except Exception:  # noqa
             pass
+
+
+def content(M, path):
+    """what a file holds, as mouette reads it (two files are compared by content: identical bytes are not required)"""
+    return obs_raw(M.mesh.load(path, raw=True))
 
 
 def run_session(job, root, idx):
@@ -395,15 +411,37 @@ def run_session(job, root, idx):
             warm(A)
         oA0, oB0 = obs_mesh(A), obs_mesh(B)
         pa, pb = P("a", upper=job.get("upper") == "first"), P("b")     # extensions are matched case-insensitively
-        save_form(M, A, pa, fm[0])
+        try:
+            save_form(M, A, pa, fm[0])
+            M.mesh.load(pa, raw=True)
+        except Timeout:
+            raise
+        except Exception as ex:  # noqa
+            if job.get("upper") != "first":
+                raise
+            out["upper_refused"] = type(ex).__name__       # the text does not speak about the spelling of the extension
+            job = dict(job, upper=None)
+            pa = P("a")
+            save_form(M, A, pa, fm[0])
         fA = read_file(pa, fmt)
         oA_after_first = obs_mesh(A)
         save_form(M, B, pb, fm[1])
         fB = read_file(pb, fmt)
         pa2 = P("a2", upper=job.get("upper") == "second")
-        save_form(M, A, pa2, fm[2])
-        checks.append(["saving the same mesh a second time (other call form%s) writes the same file"
-                       % (", upper-case extension" if job.get("upper") == "second" else ""), read_file(pa2, fmt) == fA])
+        try:
+            save_form(M, A, pa2, fm[2])
+            M.mesh.load(pa2, raw=True)
+        except Timeout:
+            raise
+        except Exception as ex:  # noqa
+            if job.get("upper") != "second":
+                raise
+            out["upper_refused"] = type(ex).__name__
+            job = dict(job, upper=None)
+            pa2 = P("a2")
+            save_form(M, A, pa2, fm[2])
+        checks.append(["saving the same mesh a second time (other call form%s) writes a file with the same content"
+                       % (", upper-case extension" if job.get("upper") == "second" else ""), content(M, pa2) == content(M, pa)])
         checks.append(["the file of the first mesh is unchanged on disk after other saves", read_file(pa, fmt) == fA])
         checks.append(["the saved meshes are unchanged by the saves", same_obs(obs_mesh(A), oA0) and same_obs(obs_mesh(B), oB0)])
         # loads
@@ -422,7 +460,7 @@ def run_session(job, root, idx):
         ra2 = M.mesh.load(filename=pa, raw=True)
         checks.append(["loading the same file again (raw) gives the same data", obs_raw(ra2) == o_ra])
         checks.append(["two loads give distinct objects", la2 is not la and la2.vertices is not la.vertices and ra2 is not ra
-                       and ra2.vertices is not ra.vertices])
+                       and ra2.vertices is not ra.vertices, "soft"])      # informative: what matters is the next check
         # edit one loaded object in place: the others, and later loads, do not see it
         try:
             if len(la2.vertices) > 0:
@@ -458,7 +496,7 @@ def run_session(job, root, idx):
         out["failed_calls"] = failed
         pa3 = P("a3")
         save_form(M, A, pa3, fm[7])
-        checks.append(["after calls that raised, saving the mesh writes the same file as before", read_file(pa3, fmt) == fA])
+        checks.append(["after calls that raised, saving the mesh writes a file with the same content as before", content(M, pa3) == content(M, pa)])
         la4 = load_form(M, pa, fm[8])
         checks.append(["after calls that raised, loading the file gives the same mesh as before", obs_mesh(la4) == o_la])
         checks.append(["after calls that raised, the saved mesh is as it was", same_obs(obs_mesh(A), oA0)])
@@ -487,8 +525,8 @@ def run_session(job, root, idx):
             lc = load_form(M, pc, fm[10])
             out["second"] = {"mesh_in": o_la, "file": fC, "unchanged": same_obs(o_la_after, o_la), "adj": o_la_after.get("adj"),
                              "load": {"raw": obs_raw(rc), "class": type(lc).__name__, "loaded": obs_mesh(lc)}}
-            checks.append(["the loaded mesh saved again gives the same file (the format's vocabulary is a fixed point)", fC == fA]
-                          + (["soft"] if fmt in ("off", "geogram_ascii") else []))   # off: the header counts the edges, which the format does not carry;
+            checks.append(["the loaded mesh saved again gives the same file (the format's vocabulary is a fixed point)", fC == fA, "soft"]
+                          + ([] if fmt in ("off", "geogram_ascii") else []))   # off: the header counts the edges, which the format does not carry;
             # geogram: the importer's own attributes are written back as user attributes (reserved-name finding)
         except Timeout:
             raise
@@ -566,7 +604,7 @@ def run_job(job, root, idx):
             b2 = dict(before)
             a2.pop("adj", None)
             b2.pop("adj", None)
-            out["unchanged"] = (a2 == b2)
+            out["unchanged"] = same_obs(a2, b2)
             if not out["unchanged"]:
                 out["mesh_after"] = after
             if "file" in out and not job.get("noload"):
